@@ -34,6 +34,7 @@ let rec parse_cnode (toks : string list) : node * string list =
   match toks with
   | "Empty" :: t -> (NEmpty, t)
   | "Goal" :: t -> (NGoal, t)
+  | "WB" :: i :: u :: t -> (NWordBoundary (bos i, bos u), t)
   | "Char" :: c :: t -> (NChar (nn c), t)
   | "CSet" :: k :: t -> let (a, r) = take (ios k) t in (NCharSet (List.map nn a), r)
   | "Any" :: t -> (NMatchAny, t)
@@ -114,6 +115,9 @@ let run () =
         | RChar (c, ic) -> (match char_node ic !unicode c with Ok m -> Some m | _ -> None)
         | RAny d -> Some (dot_node d)
         | RVClass (e, ic) -> Some (class_node ic e)
+        | RBol ml -> Some (NAnchor (true, ml))
+        | REol ml -> Some (NAnchor (false, ml))
+        | RWordB (inv, extra) -> Some (NWordBoundary (inv, extra))
         | _ -> None) in
       (match !re, fst (parse_cnode toks) with
        | Some (RAlt (_, _) as r), NCat [x; NGoal] ->
@@ -134,13 +138,11 @@ let run () =
          let rs = flat r in
          let n = List.length rs in
          if n >= 3 && List.length body = n then begin
-           let mid l = List.filteri (fun i _ -> i > 0 && i < n - 1) l in
+           let mid l = l in
            List.iter2 (fun a x ->
              let ok = (match a with
-               | RChar (c, ic) -> incr an; (match char_node ic !unicode c with Ok m -> m = x | _ -> false)
-               | RAny d -> incr an; dot_node d = x
                | RVClass (e, ic) -> incr jn; class_node ic e = x
-               | _ -> true) in
+               | _ -> incr an; (match atom_node a with Some m -> m = x | None -> true)) in
              if not ok then begin
                incr mism;
                Printf.printf "MISMATCH stage=S1-atom case=%s pat=%s flags=%s detail=model-of-the-atom-node-differs\n" !id !pat !flags end)
